@@ -608,4 +608,24 @@ theorem not_prefix_of_head (q s : List Char) (hq : q.head? = some '(') (h : s.he
       simp [List.isPrefixOf]
       exact fun h => absurd h.symm this
 
+/-! ## value conventions: definitional restatements (kept as lemmas; formerly listed in Props/C14.lean) -/
+/-- `(a::)`, `(::c)`: an empty field reads as 0 -/
+theorem triple_empty_fields (a c : Val) :
+    triple [some a, none, none] = [a, 0, 0] ∧ triple [none, none, some c] = [0, 0, c] ∧
+    triple [none, none, none] = [0, 0, 0] := ⟨rfl, rfl, rfl⟩
+
+/-- `()` gives the empty list, which both annotation loops replace by three zeros -/
+theorem triple_unit : triple [] = [] ∧ norm (triple []) = [0, 0, 0] := ⟨rfl, rfl⟩
+
+theorem norm_full (a b c : Val) : norm [a, b, c] = [a, b, c] := rfl
+
+/-- a single value list applies to both output polarities -/
+theorem sanitize_single (a b : String) (t : RawTriple) :
+    (sanitize ⟨a, b, [t]⟩).r = triple t ∧ (sanitize ⟨a, b, [t]⟩).f = triple t := ⟨rfl, rfl⟩
+
+/-- two value lists: first = rising output, second = falling output -/
+theorem sanitize_pair (a b : String) (t u : RawTriple) :
+    (sanitize ⟨a, b, [t, u]⟩).r = triple t ∧ (sanitize ⟨a, b, [t, u]⟩).f = triple u := ⟨rfl, rfl⟩
+
+
 end KV.Sdf
